@@ -33,9 +33,9 @@ RowVec ==
   LET user == User(row)
       mo == Meta(row)
   IN [sel |-> row.sel, lay |-> row.lay, full |-> row.full, wf |-> WellFormed(user), user |-> user, mou |-> mo \ Generic,
-      lookups |-> {LookupVec(user, mo, x) : x \in {y \in Queries(row) : y.t = "lookup"}},
+      lookups |-> {LookupVec(user, mo, x) : x \in {y \in AllQueries(row) : y.t = "lookup"}},
       names |-> Namings(user),
-      actions |-> {[id |-> x.id, name |-> ActionNameOf(mo, x.id), pname |-> PropertyNameOf(mo, x.id)] : x \in {y \in Queries(row) : y.t = "action"}},
+      actions |-> {[id |-> x.id, name |-> ActionNameOf(mo, x.id), pname |-> PropertyNameOf(mo, x.id)] : x \in {y \in AllQueries(row) : y.t = "action"}},
       plan |-> IF Eligible(row) THEN E2EPlan(user, mo) ELSE {}]
 ASSUME PrintT(<<"G", ToJson(Generic)>>)
 Export == Selected => PrintT(<<"R", ToJson(RowVec)>>)
